@@ -150,7 +150,7 @@ func runC12(c *Collector, r *Rng, thorough bool) {
 		// plant governed labels in the base headers now and then
 		if r.Chance(1, 4) {
 			l := pick(r, []int64{3, 258, 259, 260})
-			v := pick(r, []any{"text/plain", int64(-16), uint(5), true})
+			v := pick(r, []any{"text/plain", int64(-16), uint(5), true, nil, nil})
 			if r.Bool() {
 				if h.Protected == nil {
 					h.Protected = cose.ProtectedHeader{}
@@ -274,6 +274,39 @@ func runC12(c *Collector, r *Rng, thorough bool) {
 			}
 		}
 	}
+	// ---- verify side: the optional parameters with every kind of value, and envelopes without alg: VerifyHashEnvelope
+	// has no external data to offer, so a message without a protected alg is never verified, hence never returned ----
+	for _, l := range []int64{259, 260} {
+		for _, v := range []*W{wNull(), wUndef(), wBool(true), wArr(-1), wMap(-1), wFloat64(1.5), wInt(-1, -1), wBstr([]byte{1}, -1), wTag(2, -1, wBstr([]byte{1}, -1))} {
+			t := wTag(18, -1, wArr(-1, wBstr(wMap(-1, wInt(1, -1), wInt(-7, -1), wInt(258, -1), wInt(-16, -1), wInt(l, -1), v.Clone()).Ser(), -1), wMap(-1), wBstr(r.Bytes(32), -1), wBstr([]byte{1, 2, 3}, -1)))
+			data := t.Ser()
+			op, obs, msg, err, p := execVerifyHE(&spyVerifier{alg: -7}, data)
+			if p {
+				c.Fail("C12/panic", "VerifyHashEnvelope panicked", map[string]any{"data": hx(data)})
+				continue
+			}
+			addCase(c, fmt.Sprintf("verify/optional-parameter-type/%d", l), op, obs, true)
+			if err == nil || msg != nil {
+				c.Fail("C12/nonconforming-envelope-accepted", fmt.Sprintf("VerifyHashEnvelope accepted an envelope whose parameter %d is %x", l, v.Ser()), map[string]any{"data": hx(data)})
+			}
+		}
+	}
+	for _, pkv := range [][]*W{{wInt(258, -1), wInt(-16, -1)}, {wInt(258, -1), wInt(-16, -1), wInt(260, -1), wTstr("loc", -1)}, {wInt(258, -1), wInt(-16, -1), wInt(4, -1), wBstr([]byte("kid"), -1)}} {
+		for _, sig := range [][]byte{{1, 2, 3}, bytes.Repeat([]byte{0x42}, 64)} {
+			t := wTag(18, -1, wArr(-1, wBstr(wMap(-1, pkv...).Ser(), -1), wMap(-1), wBstr(r.Bytes(32), -1), wBstr(sig, -1)))
+			data := t.Ser()
+			vf := &spyVerifier{alg: -7}
+			op, obs, msg, err, p := execVerifyHE(vf, data)
+			if p {
+				c.Fail("C12/panic", "VerifyHashEnvelope panicked", map[string]any{"data": hx(data)})
+				continue
+			}
+			addCase(c, "verify/no-alg", op, obs, true)
+			if err == nil || msg != nil {
+				c.Fail("C12/accepted-without-valid-signature", fmt.Sprintf("VerifyHashEnvelope returned a message for an envelope without alg (its verifier was consulted %d times)", len(vf.calls)), map[string]any{"data": hx(data)})
+			}
+		}
+	}
 	// ---- verify side: edits of a well-formed envelope ----
 	m := 150
 	if thorough {
@@ -287,10 +320,10 @@ func runC12(c *Collector, r *Rng, thorough bool) {
 		}
 		pkv := []*W{wInt(1, -1), wInt(-7, -1), wInt(258, -1), wInt(ha, -1)}
 		if r.Bool() {
-			pkv = append(pkv, wInt(259, -1), pick(r, []*W{wTstr("a/b", -1), wUint(50, -1), wInt(-1, -1), wBstr([]byte{1}, -1), wTag(2, -1, wBstr([]byte{42}, -1)), wTag(3, -1, wBstr([]byte{1}, -1))}))
+			pkv = append(pkv, wInt(259, -1), pick(r, []*W{wTstr("a/b", -1), wUint(50, -1), wInt(-1, -1), wBstr([]byte{1}, -1), wTag(2, -1, wBstr([]byte{42}, -1)), wTag(3, -1, wBstr([]byte{1}, -1)), wNull(), wUndef()}))
 		}
 		if r.Bool() {
-			pkv = append(pkv, wInt(260, -1), pick(r, []*W{wTstr("loc", -1), wTstr("loc", -1), wUint(1, -1)}))
+			pkv = append(pkv, wInt(260, -1), pick(r, []*W{wTstr("loc", -1), wTstr("loc", -1), wUint(1, -1), wNull(), wBool(false)}))
 		}
 		ukv := []*W{wInt(4, -1), wBstr([]byte("kid"), -1)}
 		class := "wellformed"
@@ -617,6 +650,58 @@ func runC13(c *Collector, r *Rng, thorough bool) {
 			}
 			if (d.err != nil) != bad {
 				c.Fail("C13/iv-decode", fmt.Sprintf("IV/Partial IV combination %s in %s: decode refused=%v, expected refused=%v", iv.name, kind, d.err != nil, bad), map[string]any{"data": hx(t.Ser()), "kind": k})
+			}
+		}
+	}
+	// ---- buckets with many parameters (17 .. 60 unique labels, each with a valid value; a nested map value with as
+	// many entries): accepted on encoding means accepted on decoding, with every parameter still there ----
+	for _, np := range []int{15, 16, 17, 18, 24, 33, 60} {
+		for _, protected := range []bool{true, false} {
+			m := map[any]any{int64(4): []byte("kid")}
+			for q := 0; q < np-2; q++ {
+				m[int64(1000+q)] = int64(q)
+			}
+			claims := map[any]any{}
+			for q := 0; q < np; q++ {
+				claims[int64(q+1)] = "v"
+			}
+			m[int64(15)] = claims
+			var out []byte
+			var err error
+			if protected {
+				out, err = cose.ProtectedHeader(m).MarshalCBOR()
+			} else {
+				out, err = cose.UnprotectedHeader(m).MarshalCBOR()
+			}
+			c.Eval(fmt.Sprintf("many-parameters/protected=%v", protected), fmt.Sprint(np), true)
+			if err != nil {
+				c.Fail("C13/many-parameters-refused", fmt.Sprintf("a bucket with %d unique valid parameters is refused by the encoder: %v", np, err), map[string]any{"n": np, "protected": protected})
+				continue
+			}
+			kind := "DUnprot"
+			if protected {
+				kind = "DProt"
+			}
+			d := decodeCase(c, "decode/many-parameters", kind, out)
+			if d.paniced {
+				continue
+			}
+			got := len(d.unprot)
+			if protected {
+				got = len(d.prot)
+			}
+			if d.err != nil || got != np {
+				c.Fail("C13/direction-asymmetry", fmt.Sprintf("a bucket with %d parameters is accepted by the encoder; the decoder says %v and returns %d parameters", np, d.err, got), map[string]any{"data": hx(out), "protected": protected})
+			}
+			// inside a message, and in a signer of a COSE_Sign
+			if !protected {
+				msg := &cose.Sign1Message{Headers: cose.Headers{Protected: cose.ProtectedHeader{cose.HeaderLabelAlgorithm: cose.AlgorithmES256}, Unprotected: cose.UnprotectedHeader(m)}, Payload: []byte("p"), Signature: []byte{1}}
+				if b, err := msg.MarshalCBOR(); err == nil {
+					var back cose.Sign1Message
+					if err := back.UnmarshalCBOR(b); err != nil || len(back.Headers.Unprotected) != np {
+						c.Fail("C13/direction-asymmetry", fmt.Sprintf("a message whose unprotected bucket has %d parameters is emitted but not read back: %v", np, err), map[string]any{"data": hx(b)})
+					}
+				}
 			}
 		}
 	}
